@@ -51,8 +51,11 @@ PROP = {
             "and every delivery is compared with the message as published. Quick: every placement of <= 2 faults "
             "(7 kinds x stage x call 1..3) on chains of <= 2 stages with <= 2 messages (2272 cases) + every placement of <= 2 faults among "
             "{px x invocation 1..2 x position, 5 kinds x stage x call 1} on the multi-output chains 1x2, 1x3, 1x2/2, 1/2x2 (650 cases) "
+            "+ 24 stop-sibling scenarios (request word ps: fan-out topic with 2..3 subscribed handlers, the dispatcher is held at hook "
+            "gochannel.dispatch.next between its first and second subscription while the branch handler that already got the message is "
+            "stopped with Handler.Stop() and removed; every lineage must reach the final topic through every surviving branch; monitor only) "
             "+ 200 random longer scripts (a third of the chains with multi-output stages); thorough adds every "
-            "placement of <= 3 faults of the 5 plain kinds (15226 cases) and of <= 2 faults of all 7 kinds (2017 cases) on the 3-stage chain (calls 1..3), larger multi-output universes (1x2/2x2, 1/2x2/3, 1x3/2x2) and 5000 random. Oracle: the recorded event trace must be a run "
+            "placement of <= 3 faults of the 5 plain kinds (15226 cases) and of <= 2 faults of all 7 kinds (2017 cases) on the 3-stage chain (calls 1..3), larger multi-output universes (1x2/2x2, 1/2x2/3, 1x3/2x2), 300 stop-sibling scenarios and 5000 random. Oracle: the recorded event trace must be a run "
             "of the Lean model Pipeline.act ending in a terminal state (M line) and must satisfy the C01 monitor (P line): Ack only after the "
             "real Publish returned nil for EVERY output of that invocation, sink lineages derive from a published source lineage, every derived "
             "lineage of every successfully published source lineage is at the sink at quiescence (liveness bound 30 s), every Nacked copy was followed by a later delivery, and every delivered copy is the message as published "
@@ -74,6 +77,10 @@ PROP = {
         "Go race detector; liveness bound 30 s for quiescence",
     ],
     "assumptions": [
+        "stop-sibling class (ps): a Handler.Stop of a sibling branch is not one of the fault kinds the statement lists; it is read as a fault of "
+        "that branch's chain only, and the at-least-once clause is demanded of every chain of the DAG whose handlers keep running (per-branch "
+        "arrival at the final topic). These traces are judged by the monitor alone - the Lean model has no Stop step. The harness's publisher "
+        "wrapper does not forward Close, because a stopped Router handler closes its publisher, which would close the shared GoChannel",
         "all subscriptions exist before the first source message is published and none is cancelled while messages flow (blocking mode would otherwise "
         "run into the known finding C05 nested-publish+pending-writer)",
         "every handler forwards 1..3 outputs per input, all returned together; faults are finite (script) and hit at most once each",
